@@ -217,6 +217,7 @@ struct HsOut {
     /// the server's flight to the client was replaced / cut off: the client cannot finish
     client_disturbed: bool,
     all_client_bytes_delivered_before_deadline: bool,
+    deadline_seen: bool,
     echo_error: Option<String>,
 }
 
@@ -298,7 +299,7 @@ fn run_handshake(rt: &tokio::runtime::Runtime, pki: &Pki, c: &HsCase) -> HsOut {
     let acc = Acceptors::new(pki, t);
     let start = tokio::time::Instant::now();
     let mut pair = Pair::new(&acc, c.kind, pki, false);
-    let mut out = HsOut { res: None, resolved_at_ms: None, pending_after_deadline: false, deliveries: 0, client_ok: false, tampered: false, client_disturbed: false, all_client_bytes_delivered_before_deadline: true, echo_error: None };
+    let mut out = HsOut { res: None, resolved_at_ms: None, pending_after_deadline: false, deliveries: 0, client_ok: false, tampered: false, client_disturbed: false, all_client_bytes_delivered_before_deadline: true, deadline_seen: false, echo_error: None };
     let elapsed = |start: tokio::time::Instant| tokio::time::Instant::now().duration_since(start);
     let mut note = |pair: &Pair, out: &mut HsOut| {
         let now = elapsed(start);
@@ -307,6 +308,16 @@ fn run_handshake(rt: &tokio::runtime::Runtime, pki: &Pki, c: &HsCase) -> HsOut {
                 out.res = Some(r.clone());
                 out.resolved_at_ms = Some(now.as_millis() as u64);
             }
+        }
+        if now >= t && !out.deadline_seen {
+            // first observation at or after the deadline: was the whole handshake with the server
+            // by then? (nothing in flight in either direction and the client has finished)
+            out.deadline_seen = true;
+            if pair.ctl.in_flight(0) > 0 || pair.ctl.in_flight(1) > 0 || pair.cres.is_none() {
+                out.all_client_bytes_delivered_before_deadline = false;
+            }
+        }
+        if pair.sres.is_some() {
         } else if now >= t + Duration::from_millis(2) {
             // Tokio timers have 1 ms granularity (deadlines are rounded up to the next tick), so a
             // poll counts as "after the timeout" from timeout + 2 ms on
